@@ -5,6 +5,7 @@ package c05
 import (
 	"fmt"
 	"math"
+	"os"
 	"strings"
 	"testing"
 
@@ -82,7 +83,21 @@ var dataNodes = []string{
 	"stream|from().measurement('m')|httpOut('x')|log().prefix('S')",
 	"stream|from().measurement('m')|window().period(3s).every(1s)|last('s')|log().prefix('X')\nstream|from().measurement('m')|log().prefix('S')",
 	"stream|from().measurement('m')|holtWinters('f', 1, 0, 1s)|log().prefix('X')\nstream|from().measurement('m')|log().prefix('S')",
+	// alert templates that interpret a field value: they render for the sentinel, not for every hostile
+	// point (missing field, other type, empty string). KEEP THESE LAST: dataTemplateNodes of them are
+	// excluded by construction (known finding data/task-died/alert-template), replays index this list.
+	"stream|from().measurement('m')|alert().crit(lambda: TRUE).message('{{ index .Fields \"s\" | len }}')|log().prefix('S')",
+	"stream|from().measurement('m')|alert().crit(lambda: TRUE).details('{{ index (index .Fields \"s\") 0 }}')|log().prefix('S')",
+	"stream|from().measurement('m')|window().periodCount(1).everyCount(1)|alert().crit(lambda: TRUE).message('{{ slice (index .Fields \"s\") 1 }}')|log().prefix('S')",
 }
+
+// dataTemplateNodes is the number of templates at the end of dataNodes whose alert templates
+// interpret a field value. A point for which such a template cannot be rendered used to end the
+// task (alert.go: the error of renderMessageAndDetails was returned by the node; repaired in /repo
+// by a fix: commit). The class is searched; VERIF_C05_DATA_EXCLUDE=1 excludes it again (counted).
+const dataTemplateNodes = 3
+
+var recData *kit.Rec
 
 func hostileValue(t *rapid.T, label string) (kit.FV, bool) {
 	switch rapid.IntRange(0, 9).Draw(t, label+"kind") {
@@ -105,6 +120,12 @@ func hostileValue(t *rapid.T, label string) (kit.FV, bool) {
 
 func genData(t *rapid.T) DataCase {
 	c := DataCase{Node: rapid.IntRange(0, len(dataNodes)-1).Draw(t, "node"), Lambda: rapid.IntRange(0, len(hazardLambdas)-1).Draw(t, "lambda")}
+	if c.Node >= len(dataNodes)-dataTemplateNodes && os.Getenv("VERIF_C05_DATA_EXCLUDE") != "" {
+		if recData != nil {
+			recData.Exclude("alert-template-that-interprets-a-field-value")
+		}
+		c.Node = 6 // the alert node with a template that renders for every point
+	}
 	n := rapid.IntRange(1, 6).Draw(t, "n")
 	for i := 0; i < n; i++ {
 		p := HP{F: map[string]kit.FV{}}
@@ -183,7 +204,11 @@ func runData(c DataCase, cc *kit.Case) {
 		cc.Label("node-reported-error")
 	}
 	if runErr != nil {
-		cc.Fail("data/task-died", "a data point killed the task: %v\nscript: %s\npoints: %+v", runErr, script, c.Pts)
+		sig := "data/task-died"
+		if strings.Contains(runErr.Error(), "template:") {
+			sig = "data/task-died/alert-template"
+		}
+		cc.Fail(sig, "a data point killed the task: %v\nscript: %s\npoints: %+v", runErr, script, c.Pts)
 		return
 	}
 	// the last sentinel must have come through
@@ -210,11 +235,13 @@ func runData(c DataCase, cc *kit.Case) {
 
 var assumptionsData = []string{
 	"points are written with WriteKapacitorPoint: field values of every Go type kapacitor uses (int64, float64 incl. NaN/Inf, string, bool), missing fields; every point carries at least one field",
+	"alert message/details templates that interpret a field value (len, index, slice of a string field) render for the sentinel; a point for which they cannot be rendered (field missing, other type, empty string) is an error for that point (it used to end the task: fixed finding data/task-died/alert-template); VERIF_C05_DATA_EXCLUDE=1 excludes these node templates (counted)",
 	"every lambda of the menu is true for the sentinel point (i=2 j=1 f=1.5 s='abc' b=TRUE); the last sentinel must reach the sink, the process must stay alive and the task must end without error",
 }
 
 func TestData(t *testing.T) {
 	r := kit.NewRec("C05", "Data", ruleData, assumptionsData...)
+	recData = r
 	kit.Check(t, r, genData, runData)
 }
 
